@@ -157,6 +157,25 @@ def main():
             check(f"decompose[{name3}]", lambda c: (lambda: decompose(c["y"], c["z"], scoring_function=sf3)), ["y", "z"], C)
         else:
             check(f"decompose[{name3}]", lambda c: (lambda: decompose(c["y"], c["z"], c["w"], scoring_function=sf3)), ["y", "z", "w"], C)
+        # the domain-repair path of decompose (Poisson deviance with zero counts), weights in every container
+        y0 = [0.0] + [float(rng.randint(0, 3)) for _ in range(k - 1)]
+        z0 = sorted(rng.choice([0.25, 0.5, 1.5, 2.0, 3.5]) for _ in range(k))
+        C0 = dict(y=containers(y0, True), z=containers(z0, False), w=containers(w, wint))
+        check("decompose[PoissonDeviance,zeros]", lambda c: (lambda: decompose(c["y"], c["z"], c["w"], scoring_function=PoissonDeviance())), ["y", "z", "w"], C0)
+        # a feature matrix given as rows that mix a numeric and a string column: list of rows / tuple of rows vs polars frame
+        cats = [rng.choice(["a", "b", "c"]) for _ in range(k)]
+        xnum = [rng.choice([0.5, 1.5, 2.5, 3.0]) for _ in range(k)]
+        rows = [[xnum[i], cats[i]] for i in range(k)]
+        ref = outcome(lambda: compute_marginal(C["y"]["f64"], C["z"]["f64"], X=pl.DataFrame({"f": xnum, "g": cats}), feature_name=0, n_bins=3, bin_method="uniform"))
+        for kind, Xc in (("rows_list", rows), ("rows_tuple", tuple(tuple(r) for r in rows))):
+            n += 1
+            stats[f"compute_marginal[mixed rows]:{kind}"] = stats.get(f"compute_marginal[mixed rows]:{kind}", 0) + 1
+            got = outcome(lambda: compute_marginal(C["y"]["f64"], C["z"]["f64"], X=Xc, feature_name=0, n_bins=3, bin_method="uniform"))
+            same = (ref[0] == got[0]) and (close(ref[1], got[1]) if ref[0] == "ok" else ref[1] == got[1])
+            if not same and sum(1 for f in fails if f["case"].get("api") == "compute_marginal[mixed rows]" and f["case"].get("container") == kind) < 1:
+                fails.append(dict(case=dict(api="compute_marginal[mixed rows]", container=kind, data=dict(y=y, z=z, rows=rows)),
+                                  observed=dict(polars_frame=str(ref)[:300], this_container=str(got)[:300]),
+                                  clauses=["compute_marginal: a feature matrix given as rows mixing numeric and string columns differs from the same data as a polars frame"]))
         # bias and marginal tables, with and without a (numeric) feature
         feat = draw(0, 3)
         C["x"] = containers(feat, integral)
